@@ -264,3 +264,23 @@ def two_mems(aw=2):
     o3 <<= r1[a] ^ r1[b]
     m1[b] <<= pyrtl.MemBlock.EnabledWrite(a, a[0])
     m2[a] <<= pyrtl.MemBlock.EnabledWrite(pyrtl.concat(a, b, a, b, a[0])[:9], b[0])
+
+
+@__import__('fam.designs', fromlist=['design']).design
+def mem_loops(nports=3):
+    """a memory whose write address / data / enable depend on its own read ports, several read
+    ports created before and after the write: paths go read port -> write -> another read port"""
+    import pyrtl
+    a = pyrtl.Input(2, 'in0')
+    b = pyrtl.Input(2, 'in1')
+    m = pyrtl.MemBlock(bitwidth=2, addrwidth=2, name='m', max_read_ports=nports + 2, asynchronous=True)
+    reads = [m[(a + i)[:2]] for i in range(nports)]
+    m[reads[0] ^ b] <<= pyrtl.MemBlock.EnabledWrite(~reads[1] if nports > 1 else ~reads[0], (reads[0] == b))
+    late = m[b]
+    for i, r in enumerate(reads + [late]):
+        o = pyrtl.Output(2, 'out%d' % i)
+        o <<= r
+    r = pyrtl.Register(2, 'r')
+    r.next <<= late ^ r
+    o = pyrtl.Output(2, 'out_r')
+    o <<= r
